@@ -40,7 +40,91 @@ def replace_chain(fn: ast.AST, folder: Folder) -> list[tuple[bytes, bytes]]:
     return out
 
 
+def r20_7(prog: Program, rep):
+    """Two representations, one truth.  (1) A section key is (name,) or (name, subsection); an EMPTY subsection is a
+    subsection (`[s ""]`, written by `git config s..k v`): presence is decided by identity / arity, never by truthiness.
+    (2) The multi-valued store keeps `_real` (all values, what is written) and `_keyed` (last value, what get() answers):
+    every mutator updates both on every normal path - in particular set() always drops the older values."""
+    from sa.common import cfg_of
+    from sa.flow import must_pass
+    m = prog.module(CFG_PY)
+    w = m.funcs.get("ConfigFile.write_to_file")
+    if w is None:
+        raise AnalysisError("ConfigFile.write_to_file not found")
+    sub = {x.id for x in ast.walk(w.node) if isinstance(x, ast.Name) and "subsection" in x.id}
+    truthy = []
+    for x in ast.walk(w.node):
+        if isinstance(x, (ast.If, ast.IfExp, ast.While)):
+            st = [x.test]
+            while st:
+                e = st.pop()
+                if isinstance(e, ast.BoolOp):
+                    st.extend(e.values)
+                elif isinstance(e, ast.UnaryOp) and isinstance(e.op, ast.Not):
+                    st.append(e.operand)
+                elif isinstance(e, ast.Name) and e.id in sub:
+                    truthy.append(e)
+    ident = [x for x in ast.walk(w.node) if isinstance(x, ast.Compare) and isinstance(x.left, ast.Name) and x.left.id in sub
+             and isinstance(x.ops[0], (ast.Is, ast.IsNot))]
+    rep.ob("R20.7", CFG_PY, w.qual, "whether a section has a subsection is decided by `is None`, not by truthiness", bool(sub) and bool(ident) and not truthy,
+           "an empty subsection (`[s \"\"]`) is written as the plain section `[s]`: `s..k` becomes `s.k`, and merges with an existing `[s]`",
+           truthy[0].lineno if truthy else w.node.lineno)
+    cls = "CaseInsensitiveOrderedMultiDict"
+    n = 0
+    for q, f in sorted(m.funcs.items()):
+        if f.cls != cls or q != f"{cls}.{f.name}":
+            continue
+        stores = {"_real": [], "_keyed": []}
+        g = cfg_of(prog, f)
+        for i, nd in g.nodes.items():
+            for e in node_exprs_(nd):
+                for x in ast.walk(e):
+                    tgt = None
+                    if isinstance(x, (ast.Assign, ast.AugAssign)):
+                        tgt = x.targets[0] if isinstance(x, ast.Assign) else x.target
+                    elif isinstance(x, ast.Delete):
+                        tgt = x.targets[0]
+                    elif isinstance(x, ast.Call) and isinstance(x.func, ast.Attribute) and x.func.attr in ("append", "pop", "clear", "insert", "update", "remove", "setdefault"):
+                        tgt = x.func.value
+                    if tgt is None:
+                        continue
+                    base = tgt
+                    while isinstance(base, ast.Subscript):
+                        base = base.value
+                    d = dotted(base)
+                    if d in ("self._real", "self._keyed"):
+                        stores[d[5:]].append(i)
+        if not stores["_real"] and not stores["_keyed"]:
+            continue
+        n += 1
+        for a, b in (("_real", "_keyed"), ("_keyed", "_real")):
+            if not stores[a]:
+                rep.ob("R20.7", CFG_PY, q, f"updates {a} whenever it updates {b}", False, f"{q} changes {b} but never {a}", f.node.lineno)
+                continue
+        if stores["_real"] and stores["_keyed"]:
+            # must-pass only for representations the method stores unconditionally (a statement directly in its body);
+            # a store inside a loop/branch (delete matching entries) only has to exist
+            top = {id(s_) for s_ in f.node.body}
+            def toplevel(ids):
+                return {i for i in ids if g.nodes[i].kind == "stmt" and id(g.nodes[i].ast) in top}
+            tr, tk = toplevel(stores["_real"]), toplevel(stores["_keyed"])
+            bad_r = must_pass(g, [g.exit_normal], tr) if tr else []
+            bad_k = must_pass(g, [g.exit_normal], tk) if tk else []
+            # a path that raises KeyError before touching anything is fine (exit_raise); normal exits must have done both
+            rep.ob("R20.7", CFG_PY, q, "every normal return has updated both _real and _keyed", not bad_r and not bad_k,
+                   "a normal path returns without rebuilding the value list: older values of a multi-valued key survive a set() and are "
+                   "written back to the file", f.node.lineno)
+    if n < 3:
+        raise AnalysisError(f"expected >= 3 mutators of {cls}, found {n}")
+
+
+def node_exprs_(nd):
+    from sa.cfg import node_exprs
+    return node_exprs(nd)
+
+
 def run(prog: Program, rep, tier="quick"):
+    rep.rule("R20.7", "presence of a subsection by identity (empty != absent); the multi-value store's two representations are updated together")
     rep.rule("R20.1", "TABLE-AGREE: reader escape table inverts every escape the writer emits; backslash escaped first")
     rep.rule("R20.2", "every byte special to the reader outside quotes (anywhere / at an edge) is escaped or forces quoting")
     rep.rule("R20.3", "subsection escapes are restored by the reader; LF/NUL refused; quote-toggling scanners are escape-aware")
@@ -267,4 +351,5 @@ def run(prog: Program, rep, tier="quick"):
     rep.ob("R20.4", CFG_PY, wp.qual, "written through GitFile", bool(gfs) and not raw, "", wp.node.lineno)
     rep.floor("R20.1", 5)
     rep.floor("R20.2", 8)
+    r20_7(prog, rep)
     rep.floor("R20.3", 6)
